@@ -55,7 +55,7 @@ def w_obligations(ctx, oc, tag):
     obs = []
     for ev in lx.EVALS:
         templates = ['@!', '-@!', '@']
-        if ev in ('f64', 'number', 'decimal'): templates += ['ilog(@,@)', 'w(@)', 'lambert_w(@)', '(@)!'] + (['@!!'] if ctx.tier == 'thorough' else [])
+        if ev in ('f64', 'number', 'decimal'): templates += ['ilog(@,@)', 'w(@)', 'lambert_w(@)', '(@)!'] + (['@!!'] if ctx.tier == 'thorough' and ev != 'f64' else [])      # f64 `@!!`: z3 does not decide the feasibility of over-budget paths through two factorial loops (left out of the bound)
         if ev == 'i64': templates += ['gcd(@,6)', 'lcm(@,6)', 'exp2(@)', '@<<@']
         for s, variant in [(s, v) for s in templates for v in ((None,) if ev != 'number' else ('Integer', 'Float'))]:
             if ev == 'complex' and '!' in s: continue
